@@ -725,7 +725,7 @@ func writeEvidence(id, tier string, seed int, cd *checkDef, sourcePkgs []string,
 		"source_packages":               sourcePkgs,
 		"bounds":                        cd.Bounds,
 		"outside_the_claim":             cd.Outside,
-		"queries":                       map[string]any{"solver": "z3 5.1.0 (z3-new -in, incremental; override with SYMGO_SOLVER); fall-back one-shot z3 4.8.12 then cvc5 1.0 --solve-bv-as-int=sum", "sat": solver.Sat, "unsat": solver.Unsat, "unknown": solver.Unknown, "solver_seconds": solver.Seconds},
+		"queries":                       map[string]any{"solver": "z3 5.1.0 (z3-new -in, incremental; override with SYMGO_SOLVER); fall-back on unknown: one-shot z3 5.1.0 (60 s), z3 4.8.12 (30 s), cvc5 1.0 --solve-bv-as-int=sum (90 s)", "sat": solver.Sat, "unsat": solver.Unsat, "unknown": solver.Unknown, "solver_seconds": solver.Seconds},
 		"inconclusive":                  inconclusive,
 		"known_finding_regions_hit":     knownHits,
 		"load_seconds":                  loadSeconds,
